@@ -417,6 +417,23 @@ func handleParse(raw json.RawMessage) interface{} {
 	}
 	res["obs"] = "tree"
 	res["tree"] = dProgram(prog)
+	// an accepted text must also TOKENISE from its first to its last character (the lexer alone, same entry point
+	// the parser uses): otherwise the tree cannot stand for the whole text
+	l := syntax.NewLexer(src)
+	for n := 0; n <= 4*len(src)+8; n++ {
+		tk, lerr := zh.NextToken(l)
+		if lerr != nil {
+			if se, ok := lerr.(*zerr.SyntaxError); ok {
+				res["lexerr"] = map[string]int{"code": se.Code, "cursor": se.Cursor}
+			} else {
+				res["lexerr"] = map[string]int{"code": -1, "cursor": -1}
+			}
+			break
+		}
+		if tk.Type == zh.TypeEOF {
+			break
+		}
+	}
 	return res
 }
 
